@@ -20,6 +20,7 @@ from typing import (
 from urllib.parse import urlparse
 
 import jinja2
+import jinja2.sandbox
 import yaml
 from docutils import nodes
 from docutils.frontend import get_default_settings
@@ -1919,7 +1920,7 @@ class DocutilsRenderer(RendererProtocol):
             variable_context["env"] = self.sphinx_env
 
         # fail on undefined variables
-        env = jinja2.Environment(undefined=jinja2.StrictUndefined)
+        env = jinja2.sandbox.SandboxedEnvironment(undefined=jinja2.StrictUndefined)
 
         # try rendering
         try:
